@@ -118,9 +118,9 @@ def allShapes : List Shape := [.obj, .tomb, .ptrTomb, .tombOther, .nil, .other]
 theorem tie_pod_event_shapes :
     allShapes.map (acceptsOf "*corev1.Pod" C07.onPodDelete_cases) = allShapes.map decodeDelete ∧
     C07.onPodDelete_cases = ["*corev1.Pod", "cache.DeletedFinalStateUnknown", "default"] ∧
-    C07.onPodDelete_asserts = ["t.Obj.(*corev1.Pod)"] ∧
-    C07.onPodAdd_asserts = ["obj.(*corev1.Pod)"] ∧
-    C07.onPodUpdate_asserts = ["oldObj.(*corev1.Pod)", "newObj.(*corev1.Pod)"] := by decide
+    C07.onPodDelete_asserts = ["*corev1.Pod"] ∧
+    C07.onPodAdd_asserts = ["*corev1.Pod"] ∧
+    C07.onPodUpdate_asserts = ["*corev1.Pod", "*corev1.Pod"] := by decide
 
 /-- the reservation path = `revOps`: a FilteringResourceEventHandler (FilterFunc first) around
     ReservationToPodEventHandler; the filter unwraps a tombstone by value and then wants a *Reservation
@@ -128,48 +128,53 @@ theorem tie_pod_event_shapes :
     clause -/
 theorem tie_rsv_event_shapes :
     C07.rsvHandler_wrapping = ["cache.FilteringResourceEventHandler{FilterFunc,Handler}", "ReservationToPodEventHandler{handler}"] ∧
-    C07.rsvFilter_asserts = ["obj.(cache.DeletedFinalStateUnknown)", "obj.(*schedulingv1alpha1.Reservation)"] ∧
+    C07.rsvFilter_asserts = ["cache.DeletedFinalStateUnknown", "*schedulingv1alpha1.Reservation"] ∧
     allShapes.map (acceptsOf "*schedulingv1alpha1.Reservation" C07.rsvOnDelete_cases) = allShapes.map decodeDelete ∧
-    C07.rsvOnDelete_asserts = ["t.Obj.(*schedulingv1alpha1.Reservation)"] ∧
-    C07.rsvOnAdd_asserts = ["obj.(*schedulingv1alpha1.Reservation)"] ∧
-    C07.rsvOnUpdate_asserts = ["oldObj.(*schedulingv1alpha1.Reservation)", "newObj.(*schedulingv1alpha1.Reservation)"] := by
+    C07.rsvOnDelete_asserts = ["*schedulingv1alpha1.Reservation"] ∧
+    C07.rsvOnAdd_asserts = ["*schedulingv1alpha1.Reservation"] ∧
+    C07.rsvOnUpdate_asserts = ["*schedulingv1alpha1.Reservation", "*schedulingv1alpha1.Reservation"] := by
+  decide
+
+/-- the Device informer handlers = `devOps`: add / update take the typed object and call updateNodeDevice, delete has the
+    same two-clause type switch and calls invalidateNodeDevice -/
+theorem tie_device_event_shapes :
+    allShapes.map (acceptsOf "*schedulingv1alpha1.Device" C07.onDeviceDelete_cases) = allShapes.map decodeDelete ∧
+    C07.onDeviceDelete_asserts = ["*schedulingv1alpha1.Device"] ∧
+    C07.onDeviceAdd_asserts = ["*schedulingv1alpha1.Device"] ∧
+    C07.onDeviceUpdate_asserts = ["*schedulingv1alpha1.Device", "*schedulingv1alpha1.Device"] ∧
+    C07.onDeviceAdd_calls = ["updateNodeDevice"] ∧ C07.onDeviceUpdate_calls = ["updateNodeDevice"] ∧
+    C07.onDeviceDelete_calls = ["invalidateNodeDevice"] ∧
+    C07.deviceHandler_wiring = ["AddFunc=onDeviceAdd", "UpdateFunc=onDeviceUpdate", "DeleteFunc=onDeviceDelete"] := by
   decide
 
 /-- registerPodEventHandler wires the three cache methods to the pod informer and feeds reservations through the same
     three behind NewReservationToPodEventHandler(…, IsObjValidActiveReservation) — what the `events` harness rebuilds -/
 theorem tie_event_wiring :
     C07.podHandler_wiring =
-      ["AddFunc=deviceCache.onPodAdd", "UpdateFunc=deviceCache.onPodUpdate", "DeleteFunc=deviceCache.onPodDelete"] ∧
-    C07.rsvHandler_args = ["eventHandler, reservationutil.IsObjValidActiveReservation"] := by decide
+      ["AddFunc=onPodAdd", "UpdateFunc=onPodUpdate", "DeleteFunc=onPodDelete"] ∧
+    C07.rsvHandler_args = ["reservationutil.IsObjValidActiveReservation"] := by decide
 
 /-- `drAppend` / `drSubtract`: getUsed hands out the LIVE lists (shallow copy), so deviceResources.append must store a
     DeepCopy for a new minor and add in place only into its own copy; appendAllocated copies a whole new type;
     subtract = SubtractWithNonNegativeResult | Subtract, IsZero ⇒ delete -/
 theorem tie_append_copies :
-    C07.getUsed_stores = ["res"] ∧
-    C07.append_stores = ["resources.DeepCopy()", "device"] ∧ C07.append_helpers = ["AddResourceList"] ∧
-    C07.appendAllocated_stores = ["deviceResources.DeepCopy()"] ∧
+    C07.getUsed_stores = ["var"] ∧
+    C07.append_stores = ["call:DeepCopy", "var"] ∧ C07.append_helpers = ["AddResourceList"] ∧
+    C07.appendAllocated_stores = ["call:DeepCopy"] ∧
     C07.subtract_helpers = ["SubtractWithNonNegativeResult", "Subtract", "IsZero"] := by decide
 
 /-- the read-only steps take the READ lock only and never reach a ledger writer (`tie_entry_points`:
-    updateCacheUsed is called from Reserve / Unreserve / deletePod / updatePod only); what they hand to the
-    append / subtract helpers is what `dryRemovePod` / `dryAddPod` / `restoreOne` / `restore` / `dryFilter` do -/
+    updateCacheUsed is called from Reserve / Unreserve / deletePod / updatePod only); the calls of the
+    append / subtract helpers (count, plain vs non-negative subtraction) are those of `dryRemovePod` / `dryAddPod` / `restoreOne` / `restore` / `dryFilter` do -/
 theorem tie_readonly_steps :
     C07.readonly_locks =
       ["AddPod:RLock,RUnlock", "RemovePod:RLock,RUnlock", "RestoreReservation:RLock,RUnlock",
        "RestoreReservationPreAllocation:RLock,RUnlock", "Filter:RLock,RUnlock", "FilterNominateReservation:RLock,RUnlock"] ∧
-    C07.removePod_append = ["preemptibleDevices, podAllocated", "preemptible, podAllocated"] ∧
-    C07.addPod_subtract = ["preemptibleDevices, podAllocated, false", "preemptible, podAllocated, false"] ∧
-    C07.removePod_getUsed =
-      ["podInfoToRemove.GetPod().Namespace, podInfoToRemove.GetPod().Name", "rInfo.Pod.Namespace, rInfo.Pod.Name"] ∧
-    C07.restore_getUsed = ["reservePod.Namespace, reservePod.Name", "podRequirement.Namespace, podRequirement.Name"] ∧
-    C07.restore_appendByHints = ["minorHints, allocated, podAllocated"] ∧
-    C07.restore_subtract = ["copyDeviceResources(allocatable), allocated, false"] ∧
-    C07.merge_subtract = ["copyDeviceResources(alloc.allocatable), alloc.remained, true"] ∧
-    C07.merge_append =
-      ["mergedUnmatchedUsed, used", "mergedMatchedAllocatable, alloc.allocatable", "mergedMatchedAllocated, alloc.allocated"] ∧
-    C07.filter_append =
-      ["nil, restoreState.mergedUnmatchedUsed, state.preemptibleDevices[node.Name]",
-       "preemptible, restoreState.mergedMatchedAllocatable"] := by decide
+    -- "<number of arguments>:<literal withNonNegativeResult flag or ->" per call, in source order
+    C07.removePod_append = ["2:-", "2:-"] ∧ C07.addPod_subtract = ["3:false", "3:false"] ∧
+    C07.removePod_getUsed = ["2:-", "2:-"] ∧ C07.restore_getUsed = ["2:-", "2:-"] ∧
+    C07.restore_appendByHints = ["3:-"] ∧ C07.restore_subtract = ["3:false"] ∧
+    C07.merge_subtract = ["3:true"] ∧ C07.merge_append = ["2:-", "2:-", "2:-"] ∧
+    C07.filter_append = ["3:-", "2:-"] := by decide
 
 end KoordVerif.C07
